@@ -503,7 +503,18 @@ func runC20(c C20Case) (verdict vrt.Verdict) {
 				}
 			}
 			if i == c.ErrAt {
-				if err := tw.args.ReportError(ctx, errInner); err != nil {
+				// every other case the source's problem is one of ITS OWN requests
+				// having been abandoned: an error that wraps context.Canceled or
+				// DeadlineExceeded while the watcher and Dials are alive is an
+				// error like any other and has to arrive
+				repErr := errInner
+				switch (i + len(c.Updates)) % 4 {
+				case 1:
+					repErr = fmt.Errorf("refresh abandoned: %w (%w)", errInner, context.Canceled)
+				case 3:
+					repErr = fmt.Errorf("refresh timed out: %w (%w)", errInner, context.DeadlineExceeded)
+				}
+				if err := tw.args.ReportError(ctx, repErr); err != nil {
 					fail("ReportError through the wrapper failed: %v", err)
 					return
 				}
